@@ -37,9 +37,24 @@ def props_of(func, clause, kind, explicit=None):
         return {"C19"}
     if kind == "joint":
         return {"C11"}
+    if any(n in f for n in ("_filter:_unpack_filter", "_filter._unpack_filter", "_unpack_complex_filter", "_unpack_simple_filter", "LDAPFilter.from_string")):
+        return {"C15"}                # RFC 4515 text scanners: totality and error spans
+    if "[totality]" in f or (f.startswith(("_filter", "_controls", "_authentication", "_messages")) and "unpack" not in f
+                             and (f.endswith((".pack", "._pack_inner", ".get_value")))):
+        # encode tree.  Exceptional behaviour (LDAPMessage.pack and below return for every message value: no exception
+        # half-way through a send) supports C10 / C12; the postconditions are the RFC 4511 encoding relation (C03)
+        if kind in ("ensures", "hint", "lemma-pre", "loop-establish", "loop-preserve"):
+            return {"C03"}
+        if kind in ("call-pre", "frame"):
+            return {"C03", "C10", "C12"}
+        return {"C10", "C12"}
     if f.startswith(("_filter", "_controls", "_authentication", "_messages:_unpack_", "_messages._unpack_")) and "_unpack_ldap_message_content[" not in f \
             or "[containment]" in f:
-        return {"C05"}                # decode tree below the envelope: exception containment and loop progress
+        # decode tree below the envelope: exception containment and loop progress are C05; the value-level postconditions
+        # (what is returned, over the X.690 denotation of the octets, whatever the length form / whatever follows) are C04 and C01
+        if kind == "ensures" and "len(reader._view) + 2 <=" not in c:
+            return {"C04", "C01"}
+        return {"C05"}
     if f.startswith("_messages") or f.startswith("specs.sess"):
         if kind == "raises-unexpected":
             return {"C05"}
@@ -277,6 +292,17 @@ def run_property(pid, tier):
             regressions_open.append({"name": name, "why": "new obligation, solver answered unknown / timeout", "instances": bad})
     reported = set()
     known_lines = []
+    # an obligation that a listed known finding names (the contract states the RFC; the code is known to differ there):
+    # reported as KNOWN-FINDING while it is not discharged, never as undecided / violation; any other obligation is unaffected
+    known_obls = {o: k for k in known.get("known", []) if k["property"] == pid for o in k.get("obligations", [])}
+    for lst in (regressions_refuted, regressions_open):
+        for rg in list(lst):
+            k = known_obls.get(rg["name"])
+            if k:
+                lst.remove(rg)
+                msg = f"KNOWN-FINDING: property={pid} {k['id']}: {k['what'][:160]}"
+                if msg not in known_lines:
+                    known_lines.append(msg)
     for v in native_viol:
         k = known_match(pid, v, known)
         if k:
